@@ -2,7 +2,7 @@
 import numpy as np
 
 from .. import gen
-from ..engine import Result
+from ..engine import Result, hyp_target
 from .common import F, G, base_sample, cfg_simplifications, observe, rows, weather_at
 
 ID = "C05"
@@ -17,9 +17,11 @@ ASSUMPTIONS = [
     "tolerances: 1e-9 absolute on dimensionless quantities, 1e-9 relative on the cumulative degree-day sum, 1e-12 on root shrinkage",
 ]
 BUDGET = {"quick": 300, "thorough": 5000}
-PROFILE = gen.profile(p_gdd=0.4, p_override=0.6, pen=True, p_custom_soil=0.5, p_gw=0.35, gw_shallow=True, temp_events=(0, 3),
+HI_PRE = [c for c in gen.CROPS if float(gen.crop_params[c].get("dHI_pre", 0) or 0) > 0]   # crops whose HI can rise before flowering
+PROFILE = gen.profile(crops=HI_PRE + list(gen.CROPS) * 2, p_override=0.6, pen=True, p_custom_soil=0.5, p_gw=0.35, gw_shallow=True, temp_events=(0, 3),
                       dry_spells=(0, 2), seasons=(1, 2), max_days=800, switches=True,
-                      rain=(("dry", 3), ("mid", 2), ("wet", 2)), irr=((0, 5), (1, 2), (2, 1), (3, 1), (4, 2), (5, 1)))
+                      rain=(("dry", 3), ("mid", 2), ("wet", 2)), irr=((0, 4), (1, 4), (2, 1), (3, 1), (4, 2), (5, 2)), p_cap=0.15,
+                      iwc=(("FC", 2), ("WP", 2), ("SAT", 1), ("Pct", 4), ("Num", 1), ("Depth", 2)))
 EPS = 1e-9
 
 
@@ -114,6 +116,8 @@ def evaluate(cfg):
             i, j = first(hi > c.HI0 + EPS)
             res.fail("hi_gt_hi0", tag + "step %d: harvest index %.9g > HI0 %.4g" % (i, hi[j], c.HI0))
         lim = c.HI0 * (1 + max(float(c.dHI0), 0.0) / 100.0)
+        if lim > 0 and len(hia):
+            hyp_target(float(hia.max() / lim), "HIadj/limit")
         if (hia > lim + EPS).any():
             i, j = first(hia > lim + EPS)
             res.fail("hiadj_gt_limit", tag + "step %d: adjusted harvest index %.9g > HI0(1+dHI0/100) = %.6g" % (i, hia[j], lim))
